@@ -155,7 +155,7 @@ def gen_post_step(rng, w, has_born, prev_wrote_fc, force_cmd=None):
             s["mesh_format"] = "hdf5"
     elif mode in ("tdisp", "tdispmat"):
         s[mode] = True
-        s["tmin"], s["tmax"], s["tstep"] = 0, rng.choice([300, 600]), rng.choice([100, 150])
+        s["tmin"], s["tmax"], s["tstep"] = rng.choice([0, 0, 25.5]), rng.choice([300, 600, 410.0]), rng.choice([100, 150, 62.5])
         # without a frequency cut-off the acoustic modes at Gamma (+-1e-8 THz of rounding noise) enter as 1/omega: the
         # written numbers are then ~1e14 and noise, not a property of either front-end
         s["fmin"] = rng.choice([0.1, 0.2])
@@ -212,7 +212,7 @@ def gen_post_step(rng, w, has_born, prev_wrote_fc, force_cmd=None):
             s["projection_direction"] = rng.choice(["1 0 0", "0 0 1", "1 1 0", "1 -1 2"])
     elif mode == "tprop":
         s["tprop"] = True
-        s["tmin"], s["tmax"], s["tstep"] = rng.choice([0, 50]), rng.choice([300, 500]), rng.choice([50, 100])
+        s["tmin"], s["tmax"], s["tstep"] = rng.choice([0, 50, 12.5]), rng.choice([300, 500, 333.3]), rng.choice([50, 100, 37.5])
         # always with a cut-off: at the default cut-off 0 an acoustic Gamma mode of +-1e-8 THz (rounding noise whose sign
         # differs between compact/full or symmetrised/unsymmetrised force constants) enters or leaves the sums and moves
         # F and S by ~1 kJ/mol (section 2.4 of DESIGN.md)
@@ -258,7 +258,8 @@ def gen_post_step(rng, w, has_born, prev_wrote_fc, force_cmd=None):
         s["nowritemesh"] = True
     if rng.random() < 0.15 and mode != "readfc":
         s["mass"] = "__AUTO__"  # filled at run time: one (modified) mass per atom of the primitive cell
-    if cmd == "phonopy-load" and not has_born and "mass" not in s and mode != "pdos" and rng.random() < 0.25:
+    if cmd == "phonopy-load" and not has_born and "mass" not in s and mode != "pdos" and not prev_wrote_fc and rng.random() < 0.25:
+        # (not after a write-fc step: compact force constants written for the yaml's primitive cell are no input for another one)
         # the primitive axes stated on the command line / in the configuration file override those recorded in the input yaml
         s["pa"] = "P"
     return dict(mode=mode, cmd=cmd, settings=s)
@@ -276,6 +277,14 @@ def gen_spec(seed, index, tier):
     pa = w.primitive_matrix if isinstance(w.primitive_matrix, str) else "P"
     calc = "qe" if rng.random() < 0.3 else "vasp"
     disp = {"create_displacements": True, "dim": dim, "pa": pa.upper() if pa != "auto" else "AUTO", "cell": CELLFILE[calc]}
+    # the same primitive axes spelled out as nine fractions (the documented alternative to the letter)
+    PA_FRACTIONS = {"P": "1 0 0  0 1 0  0 0 1", "F": "0 1/2 1/2  1/2 0 1/2  1/2 1/2 0", "I": "-1/2 1/2 1/2  1/2 -1/2 1/2  1/2 1/2 -1/2",
+                    "A": "1 0 0  0 1/2 -1/2  0 1/2 1/2", "C": "1/2 1/2 0  -1/2 1/2 0  0 0 1", "R": "2/3 -1/3 -1/3  1/3 1/3 -2/3  1/3 1/3 1/3"}
+    pa_text = disp["pa"]
+    if disp["pa"] in PA_FRACTIONS and rng.random() < 0.3:
+        pa_text = PA_FRACTIONS[disp["pa"]]
+    pa_letter = disp["pa"]
+    disp["pa"] = pa_text
     if rng.random() < 0.5:
         disp["amplitude"] = rng.choice([0.02, 0.03])
     if rng.random() < 0.3:
@@ -299,7 +308,7 @@ def gen_spec(seed, index, tier):
     if index % 2 == 1:
         stale = sorted(rng.sample(["BORN", "FORCE_CONSTANTS"], rng.randint(1, 2)))
     return dict(seed=seed, world=w.spec, calc=calc, born_factor=(rng.choice([14.400, 14.5]) if (has_born and calc == "vasp" and rng.random() < 0.4) else None),
-                dim=dim, pa=disp["pa"], disp=disp, steps=steps, routes=routes, has_born=has_born, stale=stale, save_params=rng.random() < 0.3)
+                dim=dim, pa=pa_letter, pa_text=pa_text, disp=disp, steps=steps, routes=routes, has_born=has_born, stale=stale, save_params=rng.random() < 0.3)
 
 
 # ------------------------------------------------------------------ running the CLI in a fresh process
@@ -841,7 +850,7 @@ def execute(spec):
             if mode == "readfc" and stale_fc:
                 continue
             if cmd == "phonopy":
-                full = dict(s, dim=spec["dim"], pa=spec["pa"], cell=CELLFILE[calc])
+                full = dict(s, dim=spec["dim"], pa=spec.get("pa_text", spec["pa"]), cell=CELLFILE[calc])
                 positional = list(CALC_OPT[calc])
             else:
                 full = dict(s, fc_calc="traditional")
